@@ -6,7 +6,8 @@
 (***************************************************************************)
 EXTENDS Values
 
-Nil == "nil"                       \* an absent optional input / output
+Nil == [nil |-> TRUE]                \* an absent optional input / output (a record, so it compares with tensors)
+IsNil(t) == DOMAIN t = {"nil"}
 
 RECURSIVE ProdSeq(_, _)
 ProdSeq(s, i) == IF i > Len(s) THEN 1 ELSE s[i] * ProdSeq(s, i + 1)
